@@ -1,7 +1,7 @@
 """C04 — counterexamples marked valid are reproducible (value parsing, validity labelling,
 refine-once control flow).
 
-Obligations: T-refine, T-solvefs, Props/C04.vo, lint.
+Obligations: T-refine, T-solvefs, T-solvedispatch, Props/C04.vo, lint.
 Ties (every run):
   X-const   solve.parse_const_value on generated value texts (three syntaxes + malformed)
             vs the extracted model vs the intended value;
@@ -40,7 +40,7 @@ from harness import common
 from harness.common import Model
 
 PID = "C04"
-TRANSLATORS = ["T-refine", "T-solvefs"]
+TRANSLATORS = ["T-refine", "T-solvefs", "T-solvedispatch"]
 KNOWN = []
 
 ASSUMPTIONS = [
@@ -919,7 +919,7 @@ def run(rep, tier):
     rep.coverage["phase_seconds"] = phases
     rep.coverage["traces_validated_against_impl"] = len(scripted) + len(rcases) + len(fcalls) if m is not None else 0
     return rep.finish(
-        checker_cmd="make -C coq Props/C04.vo (coq_makefile, coqc 8.16.1) after regenerating coq/Gen/GenRefine.v from /repo/src/halmos/solve.py",
+        checker_cmd="make -C coq Props/C04.vo (coq_makefile, coqc 8.16.1) after regenerating coq/Gen/GenRefine.v, GenSolveFs.v and GenSolveDispatch.v from /repo/src/halmos/solve.py",
         trusted_base=common.TRUSTED_BASE_COMMON + ["the z3 and yices-smt2 binaries in /venv/bin as truthful solvers in the end-to-end part of the correspondence run"],
         assumptions=ASSUMPTIONS,
         partial=PARTIAL + (f"; THIS RUN WAS RESTRICTED to the families {only} (VERIF_C04_ONLY)" if only else ""),
